@@ -1,7 +1,14 @@
 #!/bin/sh
-# Builds the harness (release) against /repo's working tree, offline, and self-tests the rules oracle.
+# Builds the harness (release) against /repo's working tree, offline; self-tests the rules oracle;
+# solves the K+R v K / K+Q v K tablebases and has TLC check every entry (cached under work/tb).
 set -e
 cd "$(dirname "$0")/.."
 export CARGO_NET_OFFLINE=true
-(cd harness && cargo build --release --offline -q 2>/dev/null || cargo build --release --offline -q)
+mkdir -p work
+(cd harness && cargo build --release --offline -q 2> ../work/setup-build.log) || { tail -50 work/setup-build.log; exit 1; }
 python3 tools/selftest.py
+python3 -c "
+import sys; sys.path.insert(0, 'tools')
+from wvlib import ensure_tb
+ensure_tb()
+print('tablebases ready')"
